@@ -169,6 +169,9 @@ func c06Check(p c06Prop, nl ap.NaturalLanguageValues, ci int) (ds []keyed) {
 	pairs := func(n ap.NaturalLanguageValues, collapse bool) []string {
 		var out []string
 		for _, e := range n {
+			if len(e.Value) == 0 {
+				continue // absent under the normal form
+			}
 			tag := string(e.Ref)
 			if collapse {
 				tag = "-"
@@ -178,7 +181,13 @@ func c06Check(p c06Prop, nl ap.NaturalLanguageValues, ci int) (ds []keyed) {
 		sort.Strings(out)
 		return out
 	}
-	collapse := !cd.gob && len(nl) == 1 // a lone language-tagged string is written collapsed and returns untagged
+	withText := 0
+	for _, e := range nl {
+		if len(e.Value) > 0 {
+			withText++
+		}
+	}
+	collapse := !cd.gob && withText == 1 && len(nl) == 1 // a lone language-tagged string is written collapsed and returns untagged
 	w, g := pairs(nl, collapse), pairs(got, collapse)
 	if strings.Join(w, "|") != strings.Join(g, "|") {
 		effect := "text-altered"
@@ -261,6 +270,9 @@ func c06ValueCheck(nl ap.NaturalLanguageValues, pair string) (ds []keyed) {
 	pairs := func(n ap.NaturalLanguageValues, collapse bool) []string {
 		var out []string
 		for _, e := range n {
+			if len(e.Value) == 0 {
+				continue // absent under the normal form
+			}
 			tag := string(e.Ref)
 			if collapse {
 				tag = "-"
@@ -301,7 +313,7 @@ func TestC06(t *testing.T) {
 	r := ev.Open(t, "C06")
 	defer r.Close(t)
 	r.Rule("constants: ~95 valid UTF-8 texts (quotes, backslashes, escape look-alikes, control characters, JSON look-alikes, HTML, astral code points, separators) x name/summary/content/preferredUsername/source.content " +
-		"of Object, Actor, Activity, Collection and Link, and of an Object with neither id nor type (alone and as the second member of a tag list) x {single untagged, single tagged, 2-language map, maps holding the untagged default value first / last} x 5 codec entry pairs (every eighth cell again with DefaultLang = en); random: rapid.String and an escape-biased alphabet, length 1..200, every text-bearing " +
+		"of Object, Actor, Activity, Collection and Link, and of an Object with neither id nor type (alone and as the second member of a tag list) x {single untagged, single tagged, 2-language map, maps holding the untagged default value first / last, maps with text-less entries behind / in front of / between the others} x 5 codec entry pairs (every eighth cell again with DefaultLang = en); random: rapid.String and an escape-biased alphabet, length 1..200, every text-bearing " +
 		"property of every type, maps of 2..4 distinct tags. Oracle: text bytes after decode == bytes before encode, set of (tag,text) pairs preserved for maps (JSON: a lone tagged value may return untagged). " +
 		"value-pairs: the same texts and forms as a language list on its own through NaturalLanguageValues' MarshalJSON/UnmarshalJSON, encoding/json and GobEncode/GobDecode. " +
 		"non-trivial = text holds a backslash, quote, control or non-BMP character or is a JSON/escape look-alike; distinct by property + form + codec + text")
@@ -315,6 +327,9 @@ func TestC06(t *testing.T) {
 			// the untagged default value inside a map, first and last
 			{{Ref: ap.NilLangRef, Value: ap.Content(s)}, {Ref: "en", Value: ap.Content("second " + s)}},
 			{{Ref: "en", Value: ap.Content("first " + s)}, {Ref: "fr", Value: ap.Content("deuxième")}, {Ref: ap.NilLangRef, Value: ap.Content(s)}},
+			// entries without text (absent under the normal form) behind, in front of and between the entries that have one
+			{{Ref: "en", Value: ap.Content(s)}, {Ref: "fr", Value: ap.Content("deuxième " + s)}, {Ref: "de", Value: ap.Content("")}},
+			{{Ref: "de", Value: nil}, {Ref: "en", Value: ap.Content(s)}, {Ref: "it", Value: ap.Content("")}, {Ref: "fr", Value: ap.Content("deuxième " + s)}, {Ref: "pt", Value: nil}},
 		}
 	}
 	enumTypes := map[string]bool{"Object": true, "Actor": true, "Activity": true, "Collection": true, "Link": true}
